@@ -74,6 +74,37 @@ func convCompFuncV1ToV2(cf *ugo.CompiledFunction, opWidth []int) error {
 		return nil
 	}
 
+	// jump operands are widened from 2 to 4 bytes so every instruction after a
+	// jump instruction moves, calculate new positions of the instructions to
+	// relocate jump targets and source map positions.
+	newPos := make([]int, len(cf.Instructions)+1)
+	for i, n := 0, 0; ; {
+		newPos[i] = n
+		if i >= len(cf.Instructions) {
+			break
+		}
+		op := cf.Instructions[i]
+		if int(op) >= len(opWidth) {
+			return fmt.Errorf("unknown opcode %d at %d", op, i)
+		}
+		w := opWidth[op]
+		if i+1+w > len(cf.Instructions) {
+			return fmt.Errorf("truncated instruction at %d", i)
+		}
+		// positions in the instruction are relative to the instruction
+		for k := 1; k <= w; k++ {
+			newPos[i+k] = n + k
+		}
+		n += 1 + w
+		switch op {
+		case opv1.OpJump, opv1.OpJumpFalsy, opv1.OpAndJump, opv1.OpOrJump:
+			n += 2
+		case opv1.OpSetupTry:
+			n += 4
+		}
+		i += 1 + w
+	}
+
 	var newInsts []byte
 	newSrcMap := make(map[int]int, len(cf.SourceMap))
 	operands := make([]int, 0, 4)
@@ -97,12 +128,17 @@ func convCompFuncV1ToV2(cf *ugo.CompiledFunction, opWidth []int) error {
 				operands[:0],
 			)
 
+			for j, target := range operands {
+				if target < len(newPos) {
+					operands[j] = newPos[target]
+				}
+			}
+
 			var err error
 			instBuf, err = ugo.MakeInstruction(instBuf[:0], op, operands...)
 			if err != nil {
 				return fmt.Errorf("unable to make instruction: %w", err)
 			}
-			// Skip op byte, already added.
 			newInsts = append(newInsts, instBuf[1:]...)
 		default:
 			if w > 0 {
